@@ -293,7 +293,34 @@ func parseModel(s string, vars []*Term, em *emitter) map[string]uint64 {
 
 // oneShot decides a conjunction with a fresh solver process (full preprocessing, no incremental mode), which is
 // far stronger than push/pop mode on arithmetic-heavy queries.
-func oneShot(conj []*Term, solver string, timeoutMs int, wantModel bool) queryResult {
+// raceSolvers runs every solver on the query as separate processes; the first definite answer wins.
+func raceSolvers(conj []*Term, solvers []string, timeoutMs int, wantModel bool) (queryResult, float64) {
+	if len(solvers) == 1 {
+		r := oneShot(conj, solvers[0], timeoutMs, wantModel, nil)
+		return r, r.secs
+	}
+	stop := make(chan struct{})
+	ch := make(chan queryResult, len(solvers))
+	for _, sn := range solvers {
+		go func(sn string) { ch <- oneShot(conj, sn, timeoutMs, wantModel, stop) }(sn)
+	}
+	var best queryResult
+	total := 0.0
+	got := false
+	for range solvers {
+		r := <-ch
+		total += r.secs
+		if !got && (r.verdict == "sat" || r.verdict == "unsat") {
+			best, got = r, true
+			close(stop)
+		} else if !got {
+			best = r
+		}
+	}
+	return best, total
+}
+
+func oneShot(conj []*Term, solver string, timeoutMs int, wantModel bool, stop chan struct{}) queryResult {
 	t0 := time.Now()
 	var full strings.Builder
 	full.WriteString("(set-option :produce-models true)\n")
@@ -345,8 +372,14 @@ func oneShot(conj []*Term, solver string, timeoutMs int, wantModel bool) queryRe
 	go func() {
 		select {
 		case <-done:
+		case <-stop:
+			if cmd.Process != nil {
+				cmd.Process.Kill()
+			}
 		case <-time.After(time.Duration(timeoutMs)*time.Millisecond + 10*time.Second):
-			cmd.Process.Kill()
+			if cmd.Process != nil {
+				cmd.Process.Kill()
+			}
 		}
 	}()
 	out, _ := cmd.Output()
@@ -423,6 +456,7 @@ func dischargeAll(obs []*Oblig, assumes []*Term, opts solveOpts) (solverSecs flo
 			}
 			for o := range jobs {
 				conj := append([]*Term{}, assumes[:o.nAssume]...)
+				conj = append(conj, lemmas...)
 				conj = append(conj, o.cond)
 				var r queryResult
 				// 1. incremental (push/pop) with a short limit: cheap for the many easy queries
@@ -438,19 +472,15 @@ func dischargeAll(obs []*Oblig, assumes []*Term, opts solveOpts) (solverSecs flo
 				}
 				// 2. fresh process per query (full preprocessing) with the full limit, each solver in turn
 				if r.verdict != "sat" && r.verdict != "unsat" {
-					for _, sn := range opts.solvers {
-						r = oneShot(conj, sn, opts.timeoutMs, true)
-						mu.Lock()
-						solverSecs += r.secs
-						mu.Unlock()
-						if r.verdict == "sat" || r.verdict == "unsat" {
-							break
-						}
-					}
+					var secs float64
+					r, secs = raceSolvers(conj, opts.solvers, opts.timeoutMs, true)
+					mu.Lock()
+					solverSecs += secs
+					mu.Unlock()
 				}
 				if opts.cross != "" && (r.verdict == "sat" || r.verdict == "unsat") {
 					{
-						r2 := oneShot(conj, opts.cross, opts.timeoutMs, false)
+						r2 := oneShot(conj, opts.cross, opts.timeoutMs, false, nil)
 						mu.Lock()
 						solverSecs += r2.secs
 						mu.Unlock()
